@@ -147,6 +147,9 @@ class AddressMixin:
         """Assumes rectangular only"""
         if not is_address(other):
             other = AddressRange.create(other)
+            if other in ERROR_CODES:
+                # an error operand (e.g. #NULL! from an empty intersection) propagates
+                return other
         if self.sheet and other.sheet and self.sheet != other.sheet:
             return VALUE_ERROR
 
